@@ -16,6 +16,7 @@ import (
 	"github.com/tikv/pd/pkg/tempurl"
 	"go.etcd.io/etcd/clientv3"
 	"go.etcd.io/etcd/embed"
+	"go.etcd.io/etcd/etcdserver/api/v3rpc/rpctypes"
 	"go.uber.org/zap"
 	"google.golang.org/grpc"
 )
@@ -117,6 +118,7 @@ type CtlKV struct {
 	release chan Mode
 	// Filter, when set, decides whether a commit is subject to `next` (e.g. only puts to a key).
 	Filter func(ops []clientv3.Op) bool
+	nfail  int
 	// OnCommit, when set, sees the Then-ops of every commit at entry (before it is parked or sent).
 	OnCommit func(thenOps []clientv3.Op)
 	// Log, when set, is told about every commit (after it returned).
@@ -136,7 +138,19 @@ type KeepCtl struct {
 	holdRev bool
 	revHeld chan struct{}
 	revRel  chan struct{}
+	// reads: HoldRange makes the next Range (Get) call return only after ReleaseRange (etcd has answered it by then)
+	holdRange bool
+	rangeHeld chan struct{}
+	rangeRel  chan struct{}
 }
+
+func (k *KeepCtl) HoldRange() {
+	k.mu.Lock()
+	k.holdRange = true
+	k.mu.Unlock()
+}
+func (k *KeepCtl) RangeHeld() <-chan struct{} { return k.rangeHeld }
+func (k *KeepCtl) ReleaseRange()              { k.rangeRel <- struct{}{} }
 
 func (k *KeepCtl) HoldRevoke() {
 	k.mu.Lock()
@@ -148,6 +162,17 @@ func (k *KeepCtl) ReleaseRevoke()              { k.revRel <- struct{}{} }
 
 func (k *KeepCtl) interceptUnary(ctx context.Context, method string, req, reply interface{}, cc *grpc.ClientConn, invoker grpc.UnaryInvoker, opts ...grpc.CallOption) error {
 	err := invoker(ctx, method, req, reply, cc, opts...)
+	if method == "/etcdserverpb.KV/Range" {
+		k.mu.Lock()
+		h := k.holdRange
+		k.holdRange = false
+		k.mu.Unlock()
+		if h {
+			k.rangeHeld <- struct{}{}
+			<-k.rangeRel
+		}
+		return err
+	}
 	if method != "/etcdserverpb.Lease/LeaseRevoke" {
 		return err
 	}
@@ -217,7 +242,8 @@ func (k *KeepCtl) intercept(ctx context.Context, desc *grpc.StreamDesc, cc *grpc
 
 // NewClientKeep is NewClient plus control over the client's lease keep-alive responses.
 func (e *Etcd) NewClientKeep() (*clientv3.Client, *CtlKV, *KeepCtl, error) {
-	k := &KeepCtl{held: make(chan struct{}, 1), release: make(chan struct{}, 1), revHeld: make(chan struct{}, 1), revRel: make(chan struct{}, 1)}
+	k := &KeepCtl{held: make(chan struct{}, 1), release: make(chan struct{}, 1), revHeld: make(chan struct{}, 1), revRel: make(chan struct{}, 1),
+		rangeHeld: make(chan struct{}, 1), rangeRel: make(chan struct{}, 1)}
 	cli, c, err := e.newClient(grpc.WithStreamInterceptor(k.intercept), grpc.WithUnaryInterceptor(k.interceptUnary))
 	return cli, c, k, err
 }
@@ -302,7 +328,16 @@ func (t *ctlTxn) Commit() (*clientv3.TxnResponse, error) {
 	var err error
 	switch m {
 	case FailBefore:
-		err = ErrInjected
+		// what etcd answers when it did not propose the request (its leader moved / is being elected)
+		c.mu.Lock()
+		c.nfail++
+		n := c.nfail
+		c.mu.Unlock()
+		if n%2 == 1 {
+			err = rpctypes.ErrLeaderChanged
+		} else {
+			err = rpctypes.ErrNoLeader
+		}
 	case FailAfter:
 		_, err = t.inner.Commit()
 		if err == nil {
